@@ -504,6 +504,18 @@ def modularize(rng, spec):
         spec["ctors"][cid]["fn_name"] = fn
 
 
+def set_effective_cloning(spec, cid, policy):
+    """Make `policy` the cloning policy in effect for constructor `cid`, written in its attribute (any registration-level
+    override is dropped)."""
+    c = spec["ctors"][cid]
+    c["cloning"] = policy
+    c.pop("ann_cloning", None)
+    for bp, _d in _bp_nodes(spec["bp"]):
+        for it in bp["items"]:
+            if it[0] == "ctor" and it[1] == cid and len(it) > 2:
+                it[2].pop("cloning", None)
+
+
 def vary_cloning_representation(rng, spec):
     """The effective cloning policy of a constructor (`cloning`) can be written in its attribute or set when it is
     registered (`bp.constructor(C).clone_if_necessary()` / `.never_clone()`), the latter overriding the former."""
@@ -602,7 +614,7 @@ def repair_known(spec):
         mws_here = list(inherited_mws)
         n_child = 0
         for it in list(bp["items"]):
-            if it[0] in ("pre", "post", "wrap"):
+            if it[0] in ("pre", "post", "wrap", "obs"):
                 mws_here.append(it[1])
             elif it[0] == "nest":
                 child_scope = scope + (n_child,)
@@ -611,8 +623,8 @@ def repair_known(spec):
                 for cit in list(child["items"]):
                     if cit[0] == "ctor" and "_" in cit[1] and spec["ctors"][cit[1]]["lc"] == "request":
                         t = spec["ctors"][cit[1]]["out"].split("<")[0]
-                        users = [x for x in mws_here if any(tt.split("<")[0] == t for (_c, tt) in m.closure(x)) or any(tt.split("<")[0] == t for (tt, _m) in spec["mws"][x]["ins"])]
-                        if len(users) >= 2:
+                        users = [x for x in mws_here if any(tt.split("<")[0] == t for (_c, tt) in m.closure(x)) or any(tt.split("<")[0] == t for (tt, _m) in m.comp(x)[1].get("ins", []))]
+                        if len(users) >= 2 or any(x in spec["obs"] for x in users):
                             child["items"].remove(cit)
                             del spec["ctors"][cit[1]]
                             m.__init__(spec)
